@@ -63,7 +63,7 @@ async def _scenario(seed: int) -> list[dict[str, Any]]:
     ngen = {a: 0 for a in addrs}
     order: list[Any] = []  # addresses in order of _ClientData creation
 
-    orig_cls = dg._ClientData
+    orig_cls = getattr(dg, "_ClientData", object)
 
     class RecordingClientData(orig_cls):  # type: ignore[misc,valid-type]
         __slots__ = ()
@@ -86,8 +86,13 @@ async def _scenario(seed: int) -> list[dict[str, Any]]:
         st = "None"
         ql = 0
         if cd is not None:
-            st = {None: "None", dg._ClientState.TASK_PENDING: "PENDING", dg._ClientState.TASK_RUNNING: "RUNNING"}[cd.state]
-            ql = len(cd._datagram_queue)
+            try:
+                st = {None: "None", dg._ClientState.TASK_PENDING: "PENDING", dg._ClientState.TASK_RUNNING: "RUNNING"}[cd.state]
+                ql = len(cd._datagram_queue)
+            except (AttributeError, KeyError):
+                st, ql = "", -1  # internals renamed: behaviour only
+        else:
+            st, ql = "", -1
         logs[a].append({"ev": evname, "id": id_, "state": st, "qlen": ql})
 
     async def handler(ctx: Any) -> Any:
